@@ -31,6 +31,11 @@ struct Case {
     /// to the log before the continuation touches any thread (0 = none)
     #[serde(default)]
     noise_kb: u16,
+    /// instead of `noise_kb`: the other stream writes exactly so much that the start of the last
+    /// 1 MiB of the log falls INSIDE the last frame of the crash image (at this fraction of it):
+    /// the boundary a bounded backwards scan has to get right when it widens its window
+    #[serde(default)]
+    noise_boundary: Option<u8>,
 }
 
 fn weights() -> OpWeights {
@@ -58,13 +63,59 @@ fn case_strategy() -> BoxedStrategy<Case> {
         params_strategy(),
         2u8..6,
         noise_strategy(),
+        boundary_strategy(),
     )
-        .prop_map(|(ops, cont, params, surface_stride, noise_kb)| Case { ops, cont, params, surface_stride, noise_kb })
+        .prop_map(|(ops, cont, params, surface_stride, noise_kb, noise_boundary)| Case { ops, cont, params, surface_stride, noise_kb, noise_boundary })
         .boxed()
 }
 
 fn noise_strategy() -> BoxedStrategy<u16> {
     prop_oneof![3 => Just(0u16), 2 => 1u16..400, 2 => 1000u16..1400].boxed()
+}
+
+fn boundary_strategy() -> BoxedStrategy<Option<u8>> {
+    prop_oneof![3 => Just(None), 1 => (1u8..=254).prop_map(Some)].boxed()
+}
+
+/// The other stream writes EXACTLY `1 MiB - delta` bytes, delta inside the last frame of the log.
+/// Returns false when the log is too small to aim.
+fn append_noise_to_boundary(log: &rip_log::EventLog, log_path: &std::path::Path, frac: u8, tag: usize) -> bool {
+    const WINDOW: usize = 1024 * 1024;
+    let bytes = std::fs::read(log_path).unwrap_or_default();
+    if bytes.len() < 3 || *bytes.last().unwrap() != b'\n' {
+        return false;
+    }
+    let a = bytes[..bytes.len() - 1].iter().rposition(|b| *b == b'\n').map(|p| p + 1).unwrap_or(0);
+    let frame_len = bytes.len() - a;
+    if frame_len < 4 {
+        return false;
+    }
+    let delta = 1 + (frame_len - 2) * frac as usize / 255;
+    let target = WINDOW - delta;
+    let sid = format!("aim-{tag}");
+    let size_of = |seq: u64, text_len: usize| -> usize {
+        let ev = rip_kernel::Event { id: format!("{sid}-{seq}"), session_id: sid.clone(), timestamp_ms: 0, seq, kind: rip_kernel::EventKind::OutputTextDelta { delta: "n".repeat(text_len) } };
+        serde_json::to_string(&ev).map(|s| s.len() + 1).unwrap_or(0)
+    };
+    let started = rip_kernel::Event { id: format!("{sid}-0"), session_id: sid.clone(), timestamp_ms: 0, seq: 0, kind: rip_kernel::EventKind::SessionStarted { input: "aim".to_string() } };
+    let mut remaining = target.saturating_sub(serde_json::to_string(&started).map(|s| s.len() + 1).unwrap_or(0));
+    let _ = log.append(&started);
+    let mut seq = 1u64;
+    while remaining > 48 * 1024 {
+        let n = size_of(seq, 32 * 1024);
+        let ev = rip_kernel::Event { id: format!("{sid}-{seq}"), session_id: sid.clone(), timestamp_ms: 0, seq, kind: rip_kernel::EventKind::OutputTextDelta { delta: "n".repeat(32 * 1024) } };
+        let _ = log.append(&ev);
+        remaining -= n;
+        seq += 1;
+    }
+    let overhead = size_of(seq, 0);
+    if remaining < overhead {
+        return false;
+    }
+    let ev = rip_kernel::Event { id: format!("{sid}-{seq}"), session_id: sid.clone(), timestamp_ms: 0, seq, kind: rip_kernel::EventKind::OutputTextDelta { delta: "n".repeat(remaining - overhead) } };
+    let _ = log.append(&ev);
+    let now = std::fs::metadata(log_path).map(|m| m.len() as usize).unwrap_or(0);
+    now == bytes.len() + target
 }
 
 /// A session that runs right after the restart, before any thread is touched: `kb` KiB of output
@@ -347,8 +398,18 @@ fn run(case: &Case, _known: &KnownFindings) -> CaseReport {
             surface_compare(&rit, &case.params, point, "recovered", &mut rep);
         }
         // 3. continuation: further appends continue the numbering
-        append_noise_session(&rit.live.log, case.noise_kb, si);
-        let before_len = values.len() + if case.noise_kb == 0 { 0 } else { 2 + (case.noise_kb as usize).div_ceil(32) };
+        let mut aimed = false;
+        if let Some(frac) = case.noise_boundary {
+            aimed = append_noise_to_boundary(&rit.live.log, &rit.sandbox.log_path(), frac, si);
+            rep.count(if aimed { "noise_aimed_at_window_boundary" } else { "noise_aim_failed" }, 1);
+        } else {
+            append_noise_session(&rit.live.log, case.noise_kb, si);
+        }
+        let before_len = if aimed || case.noise_boundary.is_some() {
+            rit.sandbox.truth_values().map(|v| v.len()).unwrap_or(values.len())
+        } else {
+            values.len() + if case.noise_kb == 0 { 0 } else { 2 + (case.noise_kb as usize).div_ceil(32) }
+        };
         let mut cont_acked: Vec<String> = Vec::new();
         for op in &case.cont {
             if let Ok(r) = rv::engine::runner::catch(|| rit.apply(op)) {
@@ -392,9 +453,10 @@ fn run(case: &Case, _known: &KnownFindings) -> CaseReport {
         rep.class(format!("point:{p}"));
     }
     rep.count("crash_points_strictly_inside_an_op", inside);
-    rep.class(match case.noise_kb {
-        0 => "noise_before_continuation:none",
-        1..=999 => "noise_before_continuation:<1MiB",
+    rep.class(match (case.noise_boundary, case.noise_kb) {
+        (Some(_), _) => "noise_before_continuation:aimed_at_1MiB_window_boundary",
+        (None, 0) => "noise_before_continuation:none",
+        (None, 1..=999) => "noise_before_continuation:<1MiB",
         _ => "noise_before_continuation:>1MiB",
     });
     rep.nontrivial = inside > 0;
